@@ -1,5 +1,6 @@
 import GitBugModel.Model.LockFile
 import GitBugModel.Gen.Commands
+import GitBugModel.Lemmas.Atoi
 /-!
 # C19 — only one process at a time can open a repository's cache
 -/
@@ -419,6 +420,46 @@ theorem gen_commands_release_all (c : String × String × String × Bool × Bool
 
 /-- the lock file is created exclusively in the source now (what `mutex_excl_interleaved` needs) -/
 theorem gen_lock_exclusive : GitBugModel.Gen.Commands.lockExclusive = true := by decide
+
+/-! ## the content of the lock file -/
+
+/-- a pid that is written is read back: for every pid with fewer digits than the length at which
+the reader gives up (and a reader that reads at least that far) -/
+theorem lock_roundtrip (limit refuse pid : Nat) (hr : 0 < refuse - 1) (hl : refuse ≤ limit + 1) (hp : pid < 10 ^ (refuse - 1)) :
+    readLock limit refuse (renderPid pid) = .ok (pid : Int) := by
+  have hlen : (Nat.repr pid).length ≤ refuse - 1 := (Nat.length_repr_le_iff hr).mpr hp
+  have htake : (Nat.repr pid).toList.take limit = (Nat.repr pid).toList := by
+    apply List.take_of_length_le
+    rw [String.length_toList]; omega
+  unfold readLock renderPid
+  rw [Nat.toString_eq_repr]
+  simp only [htake, utf8Len_repr]
+  rw [if_neg (by omega), atoi_repr]
+
+/-- a pid too long for the reader is refused, not misread -/
+theorem lock_too_long (limit refuse pid : Nat) (hl : refuse ≤ limit) (hp : 10 ^ (refuse - 1) ≤ pid) (hr : 0 < refuse - 1) :
+    readLock limit refuse (renderPid pid) = .error .tooLong := by
+  have hlen : ¬ (Nat.repr pid).length ≤ refuse - 1 := by
+    rw [Nat.length_repr_le_iff hr]; omega
+  unfold readLock renderPid
+  rw [Nat.toString_eq_repr]
+  simp only [utf8Len_repr]
+  rw [if_pos (by omega)]
+
+/-- regenerated from cache/repo_cache.go: the pid is written with %d, read through a reader of
+`lockReadLimit` bytes, refused when `len(buf) >= lockRefuseLen`, parsed with Atoi — and those
+numbers leave room for every pid the kernel can hand out (PID_MAX_LIMIT = 2^22 = 4194304), so by
+`lock_roundtrip` the lock of every process, live or dead, is read back as its pid. -/
+theorem gen_lock_content :
+    GitBugModel.Gen.Commands.lockFormat = "%d" ∧ GitBugModel.Gen.Commands.lockRefuseOp = ">=" ∧
+    GitBugModel.Gen.Commands.lockParser = "Atoi(string(buf))" ∧
+    GitBugModel.Gen.Commands.lockRefuseLen ≤ GitBugModel.Gen.Commands.lockReadLimit + 1 ∧
+    (4194304 : Int) < 10 ^ (GitBugModel.Gen.Commands.lockRefuseLen - 1).toNat := by
+  decide
+
+example : readLock 10 10 (renderPid 4194303) = .ok 4194303 := lock_roundtrip 10 10 4194303 (by decide) (by decide) (by decide)
+example : readLock 10 7 (renderPid 4194303) = .error .tooLong := lock_too_long 10 7 4194303 (by decide) (by decide) (by decide)
+
 
 /-! ## non-vacuity -/
 
